@@ -23,8 +23,9 @@ for sid in ids:
             print(sid, "-> ERROR (check exited with %s)" % line, flush=True)
         if line.startswith("VIOLATION") and cur:
             det.append(cur + (" (no-failing-input-found)" if line.endswith("no-failing-input-found") else ""))
-    meta["detected_by"] = det
-    meta["detection_run"] = "tools/seed_matrix.py: patch applied to /repo, ./check <id> --tier quick, VERIF_SEED=1, patch undone"
-    json.dump(meta, open(mp, "w"), indent=1)
+    if not os.environ.get("MATRIX_NOWRITE"):
+        meta["detected_by"] = det
+        meta["detection_run"] = "tools/seed_matrix.py: patch applied to a scratch worktree of /repo (SEED_REPO), ./check <id> --tier quick, VERIF_SEED=%s, patch undone" % os.environ.get("VERIF_SEED", "1")
+        json.dump(meta, open(mp, "w"), indent=1)
     rows.append((sid, checks, det))
     print(sid, "->", det or "MISSED", flush=True)
